@@ -126,6 +126,9 @@ func parseCtrlMsg(str string) ctrlMsg {
 	if isEchoBack {
 		parts[1] = parts[1][len("now "):]
 	}
+	if len(parts) < 2 {
+		parts = append(parts, "") // No parameter given (e.g. a bare "PTT").
+	}
 
 	switch msg.cmd {
 	// bool
